@@ -18,7 +18,7 @@ ID = "C05"
 BUDGET = {"quick": (4, 300), "thorough": (16, 3000)}
 TECHNIQUE = "stateful property-based testing (Hypothesis RuleBasedStateMachine) with node invariants after every step, plus a generated edge-probe oracle"
 RULE = (
-    "Two generated families.  (history) a rule-based state machine over a pool of aggregators built from 1-3 tree specs; "
+    "Three generated families.  (regions) stateless histories over one binning node (optionally under Select / Branch / Label) with a generated subset of its regions populated - inside, underflow, overflow, nanflow - followed by 1..4 derived operations (scaling, copy, +, JSON reload, pickle), invariants after every step.  (history) a rule-based state machine over a pool of aggregators built from 1-3 tree specs; "
     "rules: new, fill(row, w), fill.numpy(batch, weights), c = a + b, a += b, a*f / f*a, copy, JSON reload, pickle "
     "clone; a shadow value per object tracks the exact expected root entries; after every step every live object is "
     "walked: all entries >= 0; root entries == shadow; Bin: sum(values)+underflow+overflow+nanflow == entries; "
@@ -313,8 +313,64 @@ def run_probe(case):
     return {"nontrivial": near_edge and case["inner"] and case["fam"] != "dyadic", "labels": ["mode:probe", "probe:" + kind, "fam:" + case["fam"]]}
 
 
+def region_strategy():
+    """Stateless histories over one binning node with a chosen SUBSET of its regions populated (inside / underflow /
+    overflow / nanflow), followed by every derived operation: code that special-cases empty slots shows here."""
+    row0 = {"x": 0.0, "y": 0.0, "z": 0.0, "w": 1.0, "s": "a", "t": "a", "b": False}
+
+    @st.composite
+    def regions(draw):
+        kind = draw(st.sampled_from(("Bin", "Bin", "SparselyBin", "CentrallyBin", "IrregularlyBin", "Stack")))
+        leaf = draw(st.sampled_from(({"k": "Count"}, {"k": "Count"}, {"k": "Sum", "q": {"t": "num", "col": "y", "fl": "lambda"}})))
+        flow = draw(st.sampled_from(({"k": "Count"}, {"k": "Count"}, {"k": "Sum", "q": {"t": "num", "col": "y", "fl": "lambda"}})))
+        q = {"t": "num", "col": "x", "fl": "lambda"}
+        if kind == "Bin":
+            cfg = draw(gen.bin_cfgs(6))
+            spec = {"k": "Bin", "num": cfg["num"], "low": cfg["low"], "high": cfg["high"], "q": q, "value": leaf, "underflow": dict(flow), "overflow": dict(flow), "nanflow": dict(flow)}
+            vals = {"inside": (cfg["low"] + cfg["high"]) / 2.0, "inside2": cfg["low"], "under": cfg["low"] - 1.0, "over": cfg["high"] + 1.0, "nan": float("nan")}
+        elif kind == "SparselyBin":
+            cfg = draw(gen.sparse_cfgs())
+            spec = {"k": "SparselyBin", "binWidth": cfg["binWidth"], "origin": cfg["origin"], "q": q, "value": leaf, "nanflow": dict(flow)}
+            vals = {"inside": cfg["origin"] + 0.5 * cfg["binWidth"], "inside2": cfg["origin"] - 2.5 * cfg["binWidth"], "nan": float("nan")}
+        elif kind == "CentrallyBin":
+            cs = sorted(draw(gen.center_lists(4)))
+            spec = {"k": "CentrallyBin", "centers": cs, "q": q, "value": leaf, "nanflow": dict(flow)}
+            vals = {"inside": cs[0], "inside2": cs[-1], "nan": float("nan")}
+        else:
+            es = draw(gen.edge_lists(3, 1))
+            spec = {"k": kind, ("edges" if kind == "IrregularlyBin" else "thresholds"): es, "q": q, "value": leaf, "nanflow": dict(flow)}
+            vals = {"inside": es[0] - 1.0, "inside2": es[-1] + 1.0, "nan": float("nan")}
+        if draw(st.integers(0, 3)) == 0:
+            spec = {"k": draw(st.sampled_from(("Select", "Branch", "Label"))), "inner": spec}
+            if spec["k"] == "Select":
+                spec = {"k": "Select", "q": {"t": "num", "col": "w", "fl": "lambda"}, "cut": spec["inner"]}
+            elif spec["k"] == "Branch":
+                spec = {"k": "Branch", "values": [{"k": "Count"}, spec["inner"]]}
+            else:
+                spec = {"k": "Label", "pairs": {"a": spec["inner"]}}
+        populated = draw(st.lists(st.sampled_from(sorted(vals)), unique=True, max_size=len(vals)))
+        ops = [{"op": "new", "spec": spec}]
+        for r in populated:
+            for _ in range(draw(st.integers(1, 2))):
+                ops.append({"op": "fill", "t": 0, "row": dict(row0, x=vals[r], y=draw(st.sampled_from((1.0, -2.0, 0.5)))), "w": draw(st.sampled_from((1.0, 2.0, 0.5)))})
+        derive = st.sampled_from(("mul", "mul", "copy", "add", "iadd", "reload", "pickle"))
+        for _ in range(draw(st.integers(1, 4))):
+            d = draw(derive)
+            n = 1 + sum(1 for o in ops if o["op"] in ("mul", "copy", "add", "reload", "pickle", "new2"))
+            a = draw(st.integers(0, n - 1))
+            if d == "mul":
+                ops.append({"op": "mul", "a": a, "f": draw(st.sampled_from((2.0, 0.5, 1.0, 1, 3.0))), "side": draw(st.sampled_from("lr"))})
+            elif d in ("copy", "reload", "pickle"):
+                ops.append({"op": d, "a": a})
+            else:
+                ops.append({"op": "add", "a": a, "b": draw(st.integers(0, n - 1))})
+        return {"mode": "history", "ops": ops, "exact": True, "family": "regions"}
+
+    return regions()
+
+
 def strategy(tier):
-    return probe_strategy()
+    return st.one_of(probe_strategy(), probe_strategy(), region_strategy())
 
 
 def check(case):
